@@ -128,8 +128,11 @@ def build_written(case, root):
         if str(s.dtype) == "int8":
             df[c] = (s % spec.get("part_mod", 3)).astype("int8")
         elif str(s.dtype) in ("object", "str", "string"):
-            vals = sorted(set(s.tolist()))[:3] or ["a"]
-            df[c] = [vals[i % len(vals)] for i in range(len(s))]
+            # safe labels: how '/', '=' and empty text in partition values are written into paths is C08's matter
+            df[c] = ["p%d" % (i % 3) for i in range(len(s))]
+        elif str(s.dtype) == "category":
+            import pandas as pd
+            df[c] = pd.Categorical(["q%d" % (i % 2) for i in range(len(s))])
     import pandas as pd
     oe = RT.object_encoding_for(spec, o)
     for x in case.get("extra") or []:
@@ -492,6 +495,150 @@ def examine(case, path, pq=None, ctx=None):
 KNOWN_NP = set()
 
 
+def examine_sequence(case, path, ctx=None):
+    """Short call sequence on ONE handle: case["sequence"] = [{"call": to_pandas|head|iter_row_groups, "ropts": ...}, ...].
+    Before each step the metadata-only answers are taken from a FRESH handle (nothing is asked of the used handle before
+    the read, so that a stale cache is not refreshed by the check itself); the step's frame is compared with those answers,
+    and afterwards the used handle's own answers (columns, count, categories, index, dtypes attribute) with the fresh ones
+    and with the frame just read.  -> (status, fails)"""
+    import pandas as pd
+    from fastparquet import ParquetFile
+    pn = case["pn"]
+    fails = []
+    base = {"source": case["source"], "file": case.get("rel"), "pandas_nulls": pn, "categories": "sequence", "strip": (case.get("strip") or {}).get("mode"),
+            "index_opt": "sequence", "dtypes_override": False, "columns_opt": False}
+
+    def fail(component, what, detail, **kw):
+        fails.append(({**base, "component": component, "what": what, "masked": False, **kw}, detail))
+    try:
+        used = ParquetFile(path, pandas_nulls=pn)
+    except Exception as e:        # noqa
+        return "unopenable", ["%s: %s" % (type(e).__name__, str(e)[:100])]
+    done = []
+    for k, step in enumerate(case["sequence"]):
+        ro, call = step["ropts"], step["call"]
+        where = "step %d %s(%s) after %s" % (k, call, {x: ro[x] for x in ("columns", "categories", "index")}, done or "nothing")
+        fresh = ParquetFile(path, pandas_nulls=pn)
+        try:
+            pred = dict(fresh._dtypes(ro["categories"]))
+            final_cats = set(fresh.check_categories(ro["categories"]))
+        except Exception as e:        # noqa
+            pred, final_cats = None, None
+        cols, pcats, idx, cnt = list(fresh.columns), {c: list(v) for c, v in fresh.cats.items()}, fresh._get_index(ro["index"]), fresh.count()
+        kw = {"categories": ro["categories"], "index": ro["index"]}
+        if ro["columns"] is not None:
+            kw["columns"] = list(ro["columns"])
+        df, err = None, None
+        try:
+            if call == "to_pandas":
+                df = used.to_pandas(**kw)
+                explen = cnt
+            elif call == "head":
+                df = used.head(3, **kw)
+                explen = min(3, cnt)
+            else:
+                parts = list(used.iter_row_groups(**kw))
+                explen = cnt
+                df = parts          # every row group's frame is checked on its own (concatenating would merge category sets)
+        except Exception as e:        # noqa
+            err = "%s: %s" % (type(e).__name__, str(e)[:160])
+        done.append("%s(categories=%r%s%s)" % (call, ro["categories"], "" if ro["columns"] is None else ", columns", "" if ro["index"] is None else ", index=%r" % (ro["index"],)))
+        if ctx is not None:
+            ctx.count("sequence.step", call + ("" if err is None else " raises"))
+        if err is not None or pred is None:
+            # is it the sequence, or does a fresh handle refuse the same call too?
+            try:
+                f2 = ParquetFile(path, pandas_nulls=pn)
+                (f2.to_pandas(**kw) if call == "to_pandas" else (f2.head(3, **kw) if call == "head" else list(f2.iter_row_groups(**kw))))
+                fresh_ok = True
+            except Exception:        # noqa
+                fresh_ok = False
+            if err is not None and fresh_ok:
+                fail("sequence", "read-raises-only-after-earlier-calls", "%s: raises %s, the same call on a fresh handle works" % (where, err))
+            if err is None and pred is None and ro.get("invalid_categories") is not True:
+                fail("sequence", "prediction-raises-read-works", "%s: a fresh handle refuses _dtypes/check_categories for this request but the read works" % where)
+            continue
+        if df is None:
+            continue
+        frames = df if isinstance(df, list) else [df]
+        want0 = list(ro["columns"]) if ro["columns"] is not None else cols + list(pcats)
+        if call == "iter_row_groups" and not [c for c in want0 if c not in (idx or [])]:
+            continue          # iter_row_groups drops frames without data columns (df.empty): C06's matter
+        if sum(len(x) for x in frames) != explen:
+            fail("sequence", "rows", "%s: %d rows read, count() of a fresh handle %d (expected %d)" % (where, sum(len(x) for x in frames), cnt, explen))
+        frames = [x for x in frames if not isinstance(x.columns, pd.MultiIndex)]
+        want = list(ro["columns"]) if ro["columns"] is not None else cols + list(pcats)
+        for df in frames:
+            exp_cols = [c for c in want if c not in (idx or [])]
+            if list(df.columns) != exp_cols:
+                fail("sequence", "columns", "%s: a fresh handle answers columns %s + partitions %s, index %s => %s; frame has %s" % (where, cols, list(pcats), idx, exp_cols, list(df.columns)))
+            if call != "iter_row_groups":
+                if idx and list(df.index.names) != names_of_index(idx):
+                    fail("sequence", "index-names", "%s: _get_index of a fresh handle %s, frame index names %s" % (where, idx, list(df.index.names)))
+            for c in df.columns:
+                if c not in pred:
+                    fail("sequence", "column-not-predicted", "%s: frame column %r not in the fresh handle's dtypes" % (where, c))
+                    continue
+                tp, ta = D.dt_of(pred[c]), D.dt_of(df[c].dtype)
+                if tp != ta:
+                    fail("sequence", "column-dtype", "%s: column %r: a fresh handle predicts %r, this handle read %r" % (where, c, str(pred[c]), str(df[c].dtype)), kind=tp[0])
+            exp_cat = {c for c in df.columns if c in final_cats or c in pcats}
+            act_cat = {c for c in df.columns if isinstance(df[c].dtype, pd.CategoricalDtype)}
+            if exp_cat != act_cat:
+                fail("sequence", "categories", "%s: categorical per a fresh handle %s, in the frame %s" % (where, sorted(exp_cat), sorted(act_cat)))
+        df = frames[-1] if frames else None
+        if df is None:
+            continue
+        # the used handle's own answers after the step
+        try:
+            ucols, ucnt, ucateg, uidx = list(used.columns), used.count(), dict(used.categories), used._get_index(ro["index"])
+            if ucols != cols or ucnt != cnt or ucateg != dict(fresh.categories) or uidx != idx or list(used.cats) != list(pcats):
+                fail("sequence", "handle-answers-drift", "%s: this handle now answers columns %s count %s categories %s index %s; a fresh handle: %s %s %s %s" % (
+                    where, ucols, ucnt, ucateg, uidx, cols, cnt, dict(fresh.categories), idx))
+            if call == "to_pandas":
+                ud = dict(used.dtypes)
+                for c in df.columns:
+                    if c in ud and D.dt_of(ud[c]) != D.dt_of(df[c].dtype):
+                        fail("sequence", "dtypes-attribute-stale", "%s: pf.dtypes[%r] = %r after the read, the frame it returned has %r" % (where, c, str(ud[c]), str(df[c].dtype)))
+        except Exception as e:        # noqa
+            fail("sequence", "handle-answers-raise", "%s: asking the handle afterwards raises %s: %s" % (where, type(e).__name__, str(e)[:120]))
+    # state independence of the prediction function at the end of the sequence
+    try:
+        fresh = ParquetFile(path, pandas_nulls=pn)
+        a, b = dict(used._dtypes(None)), dict(fresh._dtypes(None))
+        if {k: D.dt_of(v) for k, v in a.items()} != {k: D.dt_of(v) for k, v in b.items()}:
+            fail("sequence", "prediction-depends-on-history", "after %s: _dtypes() = %s, a fresh handle: %s" % (done, {k: str(v) for k, v in a.items()}, {k: str(v) for k, v in b.items()}))
+    except Exception as e:        # noqa
+        fail("sequence", "handle-answers-raise", "after %s: _dtypes() raises %s" % (done, type(e).__name__))
+    return "ok", fails
+
+
+def gen_sequence(rng, pf0, tuples):
+    """4-6 steps on one handle: reads with categories {} / [] / None / stored lists, column subsets, index choices, through
+    to_pandas / head / iter_row_groups, in random order"""
+    stored = list(pf0.categories) if pf0.has_pandas_metadata else []
+    cols = list(pf0.columns)
+    base = {"columns": None, "categories": None, "index": None, "dtypes": None, "invalid_categories": False}
+    pool = [dict(base), dict(base, categories={}), dict(base, categories=[]), dict(base)]
+    if stored:
+        pool.append(dict(base, categories=rng.sample(stored, rng.randint(1, len(stored)))))
+        pool.append(dict(base, categories={c: 16 for c in rng.sample(stored, 1)}))
+    if cols:
+        sub = rng.sample(cols, rng.randint(1, len(cols)))
+        pool.append(dict(base, columns=[c for c in cols if c in sub]))
+        pool.append(dict(base, index=False))
+    for ro, _ in tuples:
+        if not ro.get("invalid_categories") and not ro.get("dtypes") and not isinstance(ro.get("index"), list):
+            pool.append(dict(ro))
+    rng.shuffle(pool)
+    steps = []
+    for ro in pool[:rng.randint(4, 6)]:
+        steps.append({"call": rng.choice(["to_pandas", "to_pandas", "to_pandas", "head", "iter_row_groups"]), "ropts": ro})
+    if not any(s_["call"] == "to_pandas" and s_["ropts"]["categories"] is None for s_ in steps[1:]):
+        steps.append({"call": "to_pandas", "ropts": dict(base)})       # a default read late in the sequence
+    return steps
+
+
 def written_dtype_check(case, orig, path, pn):
     """files of C01: the handle's dtype for a written column is the documented canonical form of the written dtype
     (what C01 demands of the read; together with 'prediction = read' it makes a table change visible as a concrete input)"""
@@ -548,7 +695,10 @@ def run(ctx):
                 "(MAP/LIST chunks of test-data/map_array.parq) spliced in front of the chunks of a flat 125-row frame written by fastparquet "
                 "(harness/splice.py).  Read options per dataset (2-3 tuples): "
                 "columns None/subset/shuffled, categories None/[]/list/dict of stored categoricals/a list naming a non-categorical column, "
-                "index None/False/name/two names, dtypes override, pandas_nulls True/False.  One case = (dataset, option tuple); "
+                "index None/False/name/two names, dtypes override, pandas_nulls True/False; plus, per dataset, one CALL SEQUENCE of 4-7 "
+                "reads on one handle (to_pandas/head/iter_row_groups with categories {}/[]/None/stored lists/dicts, column subsets, index "
+                "choices, in random order, ending with a default read) checked against a fresh handle's answers after every step.  "
+                "One case = (dataset, option tuple) or (dataset, sequence); "
                 "trivial = zero rows; distinct = distinct (dataset description, options)")
     nwritten = 170 if ctx.quick() else 2200
     per = 2 if ctx.quick() else 3
@@ -584,6 +734,16 @@ def run(ctx):
         os.makedirs(root, exist_ok=True)
 
         def one(case, path, orig):
+            if "sequence" in case:
+                st, fails = examine_sequence(case, path, rc)
+                orig = None
+                if st == "ok":
+                    rc.case({k: v for k, v in case.items()}, False)
+                    rc.count("source", case["source"] + "/sequence")
+                    rc.count("sequence.length", len(case["sequence"]))
+                    for cls, det in fails:
+                        rc.fail(cls, {k: v for k, v in case.items()}, det)
+                return
             st, fails = examine(case, path, pq, rc)
             if st == "unopenable":
                 rc.count("unopenable", case.get("rel", "written") + ": " + fails[0][:60])
@@ -640,10 +800,14 @@ def run(ctx):
             for k in range(per if src["source"] != "foreign" else nfor):
                 ro = gen_ropts(lrng, pf0) if k else {"columns": None, "categories": None, "index": None, "dtypes": None, "invalid_categories": False}
                 tuples.append((ro, (lrng.random() < 0.5) if k else True))
+            tuples.append(({"sequence": gen_sequence(lrng, pf0, tuples)}, lrng.random() < 0.7))
         for ro, pn in tuples:
             case = dict(src)
             case["ropts"], case["pn"] = ro, pn
-            rc.ops.append(("count", "_tuple", json.dumps([ro, pn], sort_keys=True)))
+            if isinstance(ro, dict) and "sequence" in ro:
+                case = dict(src)
+                case["sequence"], case["pn"] = ro["sequence"], pn
+            rc.ops.append(("count", "_tuple", json.dumps([ro, pn], sort_keys=True, default=repr)))
             one(case, path, orig)
         return {"ops": rc.ops, "samples": list(pq.sample), "tuples": tuples}
 
@@ -663,6 +827,7 @@ def run(ctx):
             for k in range(per if job["src"]["source"] != "foreign" else nfor):
                 ro = gen_ropts(lrng, pf0) if k else {"columns": None, "categories": None, "index": None, "dtypes": None, "invalid_categories": False}
                 tuples.append((ro, (lrng.random() < 0.5) if k else True))
+            tuples.append(({"sequence": gen_sequence(lrng, pf0, tuples)}, lrng.random() < 0.7))
         except Exception:       # noqa
             return [job]
         return [{"src": job["src"], "seed": job["seed"], "tuples": [t]} for t in tuples]
@@ -673,6 +838,8 @@ def run(ctx):
         if job.get("tuples") and len(job["tuples"]) == 1:
             c = dict(job["src"])
             c["ropts"], c["pn"] = job["tuples"][0]
+            if "sequence" in c["ropts"]:
+                c["sequence"] = c.pop("ropts")["sequence"]
             return c
         return {"dataset": job["src"], "seed": job["seed"], "all_option_tuples_of_seed": True}
 
@@ -728,6 +895,10 @@ def replay(rep):
             path, orig = open_case(case, tmp)
             cases = [case]
         for c in cases:
+            if "sequence" in c:
+                st, fails = examine_sequence(c, path)
+                out.append((c, st, fails))
+                continue
             st, fails = examine(c, path)
             if orig is not None and st == "ok":
                 fails = fails + written_dtype_check(c, orig, path, c["pn"])
@@ -744,7 +915,7 @@ def replay(rep):
             print("dataset: %s; read options %s; pandas_nulls=%s; strip=%s" % (
                 c.get("rel") or ("%s frame n=%d kinds=%s extra=%s nomd=%s nested=%s wopts=%s" % (c["source"], c["spec"]["n"], [x["kind"] for x in c["spec"]["cols"]],
                                                                                                   [x["kind"] for x in c.get("extra") or []], c.get("nomd"), c.get("fields"), c["wopts"])),
-                c["ropts"], c["pn"], c.get("strip")))
+                c.get("ropts") or ("SEQUENCE " + json.dumps(c.get("sequence"))), c["pn"], c.get("strip")))
             if st != "ok":
                 print("status:", st, fails if st == "unopenable" else "")
                 continue
